@@ -18,7 +18,7 @@ def run(chk, tier):
              "policy check dominates membind hooks; fixers test emptiness and inclusion before success; dummy hooks complete, effect-free, selected on !IS_THISSYSTEM")
     chk.rule("R-ERRNO", "every failure return of an entry point has errno set on its path")
     nh = bind.run(chk, P, E)
-    chk.floor("R-BIND", "indirect binding hook call sites", nh, 34)
+    chk.floor("R-BIND", "indirect binding hook call sites", nh, 26)
     chk.rule("R-PAIR", "x86 discovery restores the binding it saved on every path (look_procs), OS state save/restore paired")
     pair.run_c10(chk, P, E)
     chk.decided += ["unknown flag bits rejected with EINVAL before any effect (all entry points, all words)",
